@@ -317,3 +317,54 @@ Definition alias_free (d : daction) : bool :=
   forallb (fun e1 => forallb (fun e2 => negb (e_fl e1 =? e_fl e2)%N || list_expr_eqb (e_args e1) (e_args e2)) effs) effs &&
   group_plain (group (start_effs d)) && group_plain (group (end_effs d)) &&
   forallb (occs_ok ks) (flat_map snd (d_conds d) ++ map e_val effs).
+
+(* ------------------------------------------------------------------ sub-fragment "no start effects, plain compilation" *)
+(* All actions are durative; each durative action has exactly one effect entry, at EndTiming(), made of unconditional
+   assignments; and the compiler's output on it has the plain form: the effects are the end assignments with
+   simplified values, in order (no assignment skipped as implied by a precondition, no regrouping), and every
+   condition that the compiler keeps (interval starting at StartTiming() closed on the left: as is; interval ending at
+   EndTiming(): simplified) is TRUE or among the preconditions.  A computable check on (problem, compiler output). *)
+Definition kind_eqb (a b : ekind) : bool :=
+  match a, b with KAssign, KAssign | KInc, KInc | KDec, KDec => true | _, _ => false end.
+
+Definition effect_eqb (a b : effect) : bool :=
+  (e_fl a =? e_fl b)%N && list_expr_eqb (e_args a) (e_args b) && expr_eqb (e_val a) (e_val b) &&
+  expr_eqb (e_cond a) (e_cond b) && kind_eqb (e_kind a) (e_kind b) && vars_eqb (e_vars a) (e_vars b) &&
+  Bool.eqb (e_isbool a) (e_isbool b).
+
+Fixpoint effects_eqb (a b : list effect) : bool :=
+  match a, b with [], [] => true | x :: a', y :: b' => effect_eqb x y && effects_eqb a' b' | _, _ => false end.
+
+Definition covered (pre : list expr) (c : expr) : bool := is_true c || mem_expr c pre.
+
+Definition only_end_effs (d : daction) : option (list effect) :=
+  match d_effs d with
+  | [(tm, l)] => if is_end0 tm then Some l else None
+  | _ => None
+  end.
+
+Definition plain_assign (e : effect) : bool :=
+  eff_plain e && match e_kind e with KAssign => true | _ => false end.
+
+Definition conds_covered (smp : expr -> expr) (d : daction) (pre : list expr) : bool :=
+  forallb (fun ic =>
+             let iv := fst ic in
+             (if is_start0 (ti_lo iv) && negb (ti_lopen iv) then forallb (covered pre) (snd ic) else true) &&
+             (if is_end0 (ti_hi iv) then forallb (fun c => covered pre (smp c)) (snd ic) else true)) (d_conds d).
+
+Definition plain_step (smp : expr -> expr) (d : daction) (a' : action) : bool :=
+  match only_end_effs d with
+  | None => false
+  | Some l =>
+      forallb plain_assign l &&
+      effects_eqb (a_effs a') (map (fun e => mk_assign e (smp (e_val e))) l) &&
+      conds_covered smp d (a_pre a')
+  end.
+
+Definition no_start_fragment (smp : expr -> expr) (TP : tproblem) : bool :=
+  t2s_fragment TP &&
+  match p_actions (tp_base TP) with [] => true | _ => false end &&
+  forallb (fun id => match t2s_action smp (snd id) with
+                     | Some a' => plain_step smp (snd id) a'
+                     | None => false
+                     end) (tp_dur TP).
